@@ -174,3 +174,22 @@ Definition diag_iso_nochange (e : enc) (changes : list change) (table : list act
          end
   | _ => [1]
   end.
+
+Definition diag_rollback (e : enc) (changes : list change) (table : list actor) (a : actor)
+                        (iso : option (list N)) (stays_isolated : bool)
+                        (cs : list call_exp) (after : obs) (pairs : list (actor * N)) : list N :=
+  let d := mk_tdoc changes table a in
+  match txn_open d iso with
+  | Ok o =>
+    if negb (wf_tx_b (ot_tx o)) then [2]
+    else match diag_tcalls e o cs 0 with
+         | inl l => 4 :: l
+         | inr o' =>
+           let d' := txn_rollback o' in
+           if negb (obs_eqb (aview_n e (mkA d' (if stays_isolated then iso else None))) after) then [6]
+           else if negb (table_eqb (t_table d') table) then [7]
+           else if negb (chk_hints (t_table d') pairs) then [8]
+           else if negb (nlist_eqb (m_get_heads (t_m d')) (heads_of changes)) then [9] else []
+         end
+  | _ => [1]
+  end.
